@@ -32,6 +32,11 @@ def build(case, seed=0):
         "instance_xmlns": f"http://example.com/inst{tag}", "prefix": f"pfx{tag}", "delimiter": f"dlm{tag}",
         "attr_id": f"legacyid{tag}", "attr_version": f"legacyver{tag}",
     }
+    if rnd.random() < 0.4:
+        # the namespaces cell also names a STANDARD prefix with a foreign URI (before or after the custom pair): the standard
+        # declaration stays what it is, the pair declares nothing
+        clash = rnd.choice(['jr="http://example.com/otherjr"', 'odk="urn:other:odk"', 'h="http://example.com/h"', 'orx="http://example.com/orx"'])
+        vals["namespaces"] = f'{clash} {vals["namespaces"]}' if rnd.random() < 0.5 else f'{vals["namespaces"]} {clash}'
     present = sorted(case["present"])
     rnd.shuffle(present)
     hdr = [rnd.choice(SPELL[k]) for k in present]
